@@ -14,7 +14,8 @@ Oracle (API boundary unless stated):
 * stream: the bytes ACCEPTED by the OS are always R[c0 : c0+accepted] and never go beyond what was
   written while the connection was up and the write side not yet closed (`connectionLost` /
   `_closeWriteConnection` not yet called) -> no loss, duplication, reordering, nothing after close;
-* close: when the descriptor closes in an orderly way (ConnectionDone out of doWrite), everything
+* close: when the descriptor closes in an orderly way (any ConnectionDone: out of doWrite or straight
+  out of loseConnection(), also while a requested half close is still pending), everything
   written before the first loseConnection() has been accepted; it is never closed that way while a
   non-streaming producer is registered; `_closeWriteConnection` only after everything written
   before loseWriteConnection() was accepted;
@@ -51,7 +52,8 @@ ASSUMPTIONS = [
 SHARDS = {"quick": 4, "thorough": 16}
 FLOORS = {"doWrite_calls": 5000, "partial_accepts": 300, "zero_accepts": 100, "bytes_accepted": 1000000, "orderly_closes": 50,
           "pause_checks": 100, "drain_resume_checks": 100, "halfclose_checks": 20, "closes_deferred_for_pull_producer": 10,
-          "closes_with_data_written_before_loseconnection": 30, "histories_with_big_buffer": 20}
+          "closes_with_data_written_before_loseconnection": 30, "histories_with_big_buffer": 20,
+          "halfclose_close_scripts": 100, "closes_while_halfclose_pending": 30}
 READY = True
 
 import os
@@ -191,8 +193,13 @@ def make_world(ctx, rng, case):
             w.alive = False
             self._fileno = -1
             abstract.FileDescriptor.connectionLost(self, reason)
-            if was_alive and w.in_dowrite and reason.type.__name__ == "ConnectionDone":
+            # An orderly close is ANY ConnectionDone: out of doWrite after the drain, or straight out
+            # of loseConnection() (its "write side already closed" shortcut).
+            if was_alive and reason.type.__name__ == "ConnectionDone":
                 ctx.count("orderly_closes")
+                ctx.count("orderly_closes_from_dowrite" if w.in_dowrite else "orderly_closes_from_loseconnection")
+                if w.lwc_mark is not None and not w.write_closed:
+                    ctx.count("closes_while_halfclose_pending")
                 if w.lc_mark is None:
                     violation("closed-unasked", "orderly close out of doWrite without loseConnection()")
                 if w.lc_mark > w.c0:
@@ -203,7 +210,8 @@ def make_world(ctx, rng, case):
                 p = w.producer
                 if p is not None:
                     ctx.count("closes_with_streaming_producer_registered" if p.streaming else "closes_with_pull_producer_registered")
-                    if not p.streaming:
+                    # guard: once the write side is closed nothing can be produced any more
+                    if not p.streaming and not w.write_closed:
                         violation("closed-with-pull-producer-registered", "closed while a non-streaming producer was registered")
             w.producer = None
 
@@ -416,6 +424,7 @@ def run_case(ctx, case):
     nops = rng.choice([15, 40, 80, 150, 300])
     zero_run = 0
     one_shot_p = 0.02
+    script = []
     try:
         post_mortem = 8  # a few more ops on a dead descriptor (must be ignored), then stop
         for _ in range(nops):
@@ -423,7 +432,28 @@ def run_case(ctx, case):
                 post_mortem -= 1
                 if post_mortem < 0:
                     break
+            if script:
+                step = script.pop(0)
+                if step[0] == "write":
+                    ops["write"](step[1])
+                elif step[0] == "ws":
+                    ops["writeSequence"](step[1], "list")
+                elif step[0] == "doWrite":
+                    ops["doWrite"](step[1])
+                else:
+                    ops[step[0]]()
+                continue
             r = rng.random()
+            if w.alive and not w.write_closed and w.lc_mark is None and r < 0.02:
+                # half close requested and full close with bytes still buffered, both orders, with
+                # partial acceptance and writes in between (needs several steps in a row)
+                ctx.count("halfclose_close_scripts")
+                big = [["write", ops["pick_size"]() + rng.choice([1, 5000, 200000])], ["ws", [rng.randint(0, 3000), rng.randint(1, 70000)]]][rng.random() < 0.3]
+                part = lambda: ["doWrite", rng.choice(["zero", "one", "half", rng.randint(0, 3000), "allbut1"])]
+                maybe = lambda step: [step] if rng.random() < 0.5 else []
+                first, second = (["loseWrite"], ["lose"]) if rng.random() < 0.7 else (["lose"], ["loseWrite"])
+                script = [big] + maybe(part()) + [first] + maybe(["write", rng.randint(0, 5000)]) + maybe(part()) + [second] + maybe(["write", rng.randint(0, 500)])
+                continue
             if zero_run > 0 and fd in reactor.writers:
                 zero_run -= 1
                 ops["doWrite"]("zero")
